@@ -179,6 +179,10 @@ def run_case(case):
             got = g.getAllData()
             if not lo.bits_equal(got, exp):
                 return "%s: data differ from the single-array model in layout %s: %s" % (what, m.layout, lo.describe_diff(got, exp, m.G))
+            for i_ in range(nd):
+                rg = g.getGlobalIdxVals(i_)
+                if (rg.start, rg.stop) != (int(L.starts[i_]), int(L.ends[i_])):
+                    return "%s: getGlobalIdxVals(%d) = %r but the current layout %s owns [%d,%d)" % (what, i_, rg, m.layout, L.starts[i_], L.ends[i_])
             # soft structural contract
             try:
                 bufs = g._my_data
